@@ -336,6 +336,41 @@ func runCheck(repo, prop, tier string, seed int, opt solveOpts, start time.Time)
 			fmt.Printf("FAILED-OBLIGATION: lemma/%s expected %s got %v\n", name, expect, results)
 		}
 	}
+	// bounded stand-ins (/verif/bounded/<prop>_*_test.go): executable checks of functions that could not be brought under
+	// contract, run on the real code through a go test overlay. Labelled bounded; never counted as proved obligations.
+	boundedEv := []map[string]any{}
+	bfiles, _ := filepath.Glob(filepath.Join(verifRoot(), "bounded", prop+"_*_test.go"))
+	sort.Strings(bfiles)
+	for _, bf := range bfiles {
+		src, _ := os.ReadFile(bf)
+		bound := ""
+		if m := regexp.MustCompile(`(?m)^// bound: (.*)$`).FindSubmatch(src); m != nil {
+			bound = string(m[1])
+		}
+		fnName := ""
+		if m := regexp.MustCompile(`(?m)^// function: (.*)$`).FindSubmatch(src); m != nil {
+			fnName = string(m[1])
+		}
+		t0 := time.Now()
+		rr := runReplay(repo, bf)
+		ev := map[string]any{"file": bf, "function": fnName, "bound": bound, "seconds": round2(time.Since(t0).Seconds()), "label": "bounded (not a proof)"}
+		switch {
+		case rr.Err != "":
+			ev["result"] = "error: " + rr.Err
+			violations++
+			rp := writeReplayNote(prop, "bounded/"+filepath.Base(bf), "the bounded check could not be run", rr.Err+"\n"+rr.Output)
+			viol = append(viol, fmt.Sprintf("VIOLATION property=%s replay=%s no-failing-input-found", prop, rp))
+			fmt.Printf("FAILED-OBLIGATION: bounded/%s could not be run: %s\n", filepath.Base(bf), rr.Err)
+		case rr.Reproduced:
+			ev["result"] = "violated"
+			violations++
+			viol = append(viol, fmt.Sprintf("VIOLATION property=%s replay=%s", prop, bf))
+			fmt.Printf("FAILED-OBLIGATION: bounded/%s (%s) fails on the real code within the bound: %s\n", filepath.Base(bf), fnName, bound)
+		default:
+			ev["result"] = "held within the bound"
+		}
+		boundedEv = append(boundedEv, ev)
+	}
 	// one KNOWN-FINDING line per finding id
 	seenK := map[string]bool{}
 	for _, l := range knownLines {
@@ -374,6 +409,7 @@ func runCheck(repo, prop, tier string, seed int, opt solveOpts, start time.Time)
 		"engine_errors":            engineErrs,
 		"unclaimed_obligations":    unclaimedSeen,
 		"lemmas":                   lemmaEv,
+		"bounded_checks":           boundedEv,
 		"load_s":                   round2(loadS),
 	}
 	writeEvidence(evPath, prop, tier, seed, samples, tb, total, discharged, violations, extra, time.Since(start).Seconds(), assumptions, violations)
